@@ -51,7 +51,7 @@ ATTRS = {
 def plan(tier):
     return {"shards": 8 if tier == "quick" else 16, "budget_s": 25 if tier == "quick" else 300,
             "required_counters": ["judged:valid", "judged:malformed", "judged:unspecified", "rejected", "accepted",
-                                  "readback_checks", "late_getB_checks", "route:ctor", "route:setter"]}
+                                  "readback_checks", "late_getB_checks", "route:ctor", "route:setter", "kind:invalid_geometry"]}
 
 
 # ------------------------------------------------------------------ spec table
@@ -367,6 +367,7 @@ def check_case(ctx, case, value=None):
     verdict = classify(cls, attr, value)
     ctx.count("judged:" + verdict)
     ctx.count("route:" + route)
+    ctx.count("kind:" + case["kind"])
     lits = ctx.__dict__.setdefault("_lits", test_literals())
     rep = repr(value.tolist() if isinstance(value, np.ndarray) else value)
     ctx.evaluated({**case, "value_repr": rep[:300]}, nontrivial=rep not in lits)
@@ -481,7 +482,41 @@ def check_case(ctx, case, value=None):
                           {"value": rep[:300], "exc": exc_info(e)})
 
 
+def invalid_geometry(rng, cls, attr):
+    """well-formed values whose geometry is invalid by the documentation (each rule exercised explicitly)"""
+    if attr == "dimension" and cls == "CylinderSegment":
+        r1, r2, h = float(rng.uniform(0.1, 1)), float(rng.uniform(1.1, 2)), float(rng.uniform(0.2, 2))
+        p1 = float(rng.uniform(-360, 360))
+        k = int(rng.integers(0, 8))
+        return [[r2, r1, h, p1, p1 + 90],                       # inner radius above outer radius
+                [r1, r2, h, p1 + 90, p1],                       # reversed angle range
+                [r1, r2, h, p1, p1 + 360 + float(rng.uniform(1e-6, 400))],  # more than 360 degrees
+                [r1, r2, -h, p1, p1 + 90], [r1, r2, 0.0, p1, p1 + 90],      # height <= 0
+                [-r1, r2, h, p1, p1 + 90], [r1, -r2, h, p1, p1 + 90], [0.0, 0.0, h, p1, p1 + 90]][k]
+    if attr == "dimension":
+        n = 3 if cls == "Cuboid" else 2
+        d = rng.uniform(0.2, 2, n)
+        d[int(rng.integers(0, n))] *= float(rng.choice([-1.0, 0.0]))
+        return d.tolist()
+    if attr == "diameter":
+        return -float(rng.uniform(0.1, 2))
+    if attr == "vertices" and cls == "Tetrahedron":
+        v = rng.normal(size=(4, 3))
+        return v[: int(rng.choice([3, 5])) if rng.random() < 0.5 else 4, : 3 if rng.random() < 0.5 else 2].tolist() \
+            if rng.random() < 0.7 else np.r_[v, v[:1]].tolist()
+    if attr == "vertices" and cls == "Triangle":
+        return rng.normal(size=(int(rng.choice([2, 4])), 3)).tolist()
+    if attr == "vertices" and cls == "Polyline":
+        return rng.normal(size=(1, 3)).tolist()
+    return None
+
+
 def make_value(rng, cls, attr, kind):
+    if kind == "invalid_geometry":
+        v = invalid_geometry(rng, cls, attr)
+        if v is not None:
+            return v
+        kind = "mutated"
     if kind == "valid":
         return valid_value(rng, cls, attr)
     if kind == "mutated":
@@ -499,8 +534,11 @@ def run_shard(ctx):
         cls = classes[int(rng.integers(0, len(classes)))]
         attr = ATTRS[cls][int(rng.integers(0, len(ATTRS[cls])))]
         case = {"cls": cls, "attr": attr, "route": str(rng.choice(["ctor", "setter"])),
-                "kind": str(rng.choice(["valid", "mutated", "grammar", "other_attr"], p=[0.2, 0.4, 0.3, 0.1])),
+                "kind": str(rng.choice(["valid", "mutated", "grammar", "other_attr", "invalid_geometry"], p=[0.2, 0.3, 0.25, 0.1, 0.15])),
                 "seed": int(rng.integers(0, 2**31))}
+        if case["kind"] == "invalid_geometry":
+            geo = [(c, a) for c in ATTRS for a in ATTRS[c] if a in ("dimension", "diameter") or (a == "vertices" and c != "TriangularMesh")]
+            case["cls"], case["attr"] = geo[int(rng.integers(0, len(geo)))]
         check_case(ctx, case)
 
 
